@@ -85,11 +85,18 @@ PatternsD ==
       PAnd(<<PIns("m", <<DR(<<DF("main_reg", FC("r")), DF("register_multiplier", FC("i")), DF("constant_multiplier", FL("4"))>>)>>),
              PIns("n", <<DR(<<DF("main_reg", FC("i"))>>)>>)>>),
       PAnd(<<PIns("m", <<DR(<<DF("main_reg", RNode("frcap", "genreg-1", "genreg", "64"))>>)>>), PIns("n", <<R("genreg", "32")>>)>>),
+      \* index register AND displacement captured in one $deref (typed in one order, emitted in another), each used again
+      PAnd(<<PIns("m", <<DR(<<DF("main_reg", FL("rax")), DF("register_multiplier", FC("i")), DF("constant_multiplier", FL("4")),
+                             DF("constant_offset", FC("k"))>>)>>), PIns("n", <<DR(<<DF("main_reg", FC("i"))>>)>>)>>),
+      PAnd(<<PIns("m", <<DR(<<DF("constant_offset", FC("k")), DF("main_reg", FL("rax")), DF("register_multiplier", FC("i")),
+                             DF("constant_multiplier", FC("c"))>>)>>),
+             PIns("n", <<DR(<<DF("main_reg", FC("i")), DF("constant_offset", FC("k"))>>)>>)>>),
       \* a $deref with a constant that may be written as a YAML integer, ahead of a capture that is used again
       PAnd(<<PIns("m", <<DR(<<DF("main_reg", FL("rax")), DF("constant_offset", FL("16"))>>), OCap("v")>>), PIns("n", <<OCap("v")>>)>>),
       PAnd(<<PIns("m", <<DR(<<DF("main_reg", FL("rax")), DF("register_multiplier", FL("rbx")), DF("constant_multiplier", FL("4")),
                              DF("constant_offset", FL("24"))>>), OCap("v")>>), PIns("n", <<OCap("w")>>), PIns("n", <<OCap("v"), OCap("w")>>)>>) }
-MemD == {"[%rax]", "[%rbx]", "[%rax+0x8]", "[%rbx+0x8]", "[%rax+0x10]", "[%rax+%rbx*4]", "[%rbx+%rax*4]", "%eax", "%ebx"}
+MemD == {"[%rax]", "[%rbx]", "[%rax+0x8]", "[%rbx+0x8]", "[%rax+0x10]", "[%rax+%rbx*4]", "[%rbx+%rax*4]", "%eax", "%ebx",
+         "[%rax+%rbx*4+0x8]", "[%rax+%rbx*4+0x4]", "[%rbx+0x4]", "[%rax+%rbx*8+0x8]"}
 ListingsD == { WithAddrs(<< <<"m", <<o1>> >>, <<"n", <<o2>> >> >>) : o1 \in MemD, o2 \in MemD }
         \cup { WithAddrs(<< <<"m", <<o1, v>> >>, <<"n", <<w>> >> >>) : o1 \in {"[%rax+0x16]", "[%rax+16]", "[%rax+0x10]"}, v \in {"%rbx", "%rcx"}, w \in {"%rbx", "%rcx"} }
         \cup { WithAddrs(<< <<"m", <<"[%rax+%rbx*4+0x24]", v>> >>, <<"n", <<w>> >>, <<"n", <<v2, w2>> >> >>)
